@@ -8,7 +8,7 @@
 From Coq Require Import List NArith ZArith Arith Bool.
 From Coq Require String.
 From PyTRS Require Import Engine.Regex Gen.Patterns PyRt.Str Gen.Tables Model.Trs Model.Unpack Model.TractParse
-     Model.PlssPre Model.PlssParse Model.Config Model.PlssDesc Proofs.C09.Tracts Proofs.C12.Full.
+     Model.PlssPre Model.PlssParse Model.Config Model.PlssDesc Proofs.C09.Tracts Proofs.C12.Match Proofs.C12.Full Proofs.C09.Clean.
 Import ListNotations.
 Import String.StringSyntax.
 Local Open Scope string_scope.
@@ -42,6 +42,16 @@ Proof.
   destruct raw as [|c0 r]; [left; reflexivity | right]. rewrite E. apply TRS_trs_spec. discriminate.
 Qed.
 Print Assumptions C09_trs_strict.
+
+(* WELL-FORMED: for every text and every setting, every tract's .trs is either the error TRS or
+   <1-3 digits><n|s> / error-twp, <1-3 digits><e|w> / error-rge, <2 digits> / error-sec -- never the
+   UNDEFINED placeholder.  (The raw twprge+sec string never contains '_': the groups of the regenerated
+   twprge_regex hold no '_' -- computed from the pattern by Engine/RegexStatic.group_chars -- and
+   sections are two-digit renderings of integers; the invariant is carried through the whole parser.) *)
+Theorem C09_well_formed : forall text layout d ocr cu rc seg sw ts p,
+  plss_parser text layout d ocr cu rc seg sw ts = Ok p -> Forall (fun t => std_trs (to_trs t)) (po_tracts p).
+Proof. exact plss_parser_std. Qed.
+Print Assumptions C09_well_formed.
 
 (* the normalised TRS of anything that is not in the standard form is the error TRS, and the
    undefined TRS arises only from empty input -- which construct_tracts never supplies
